@@ -560,6 +560,52 @@ def default_index_collision(ck, i):
         ck.count('default_index.all_different')
 
 
+def shared_entries(ck, i):
+    """Several connections of one daemon use the SAME protect entry object (a YAML alias: `protect: *common`), an entry that names no subnets: for each connection
+    it means "between MY two endpoints". One outbound policy per connection with that connection's peer as selector, and each peer's negotiation ends with kernel
+    SAs between the hub and THAT peer."""
+    n_peers = 2 + i % 2
+    v6 = i % 5 == 4
+    try:
+        sim, hub, peers = S.make_star(ck.seed * 67 + i, peers=n_peers, v6=v6, share_protect=True)
+    except Exception as ex:
+        ck.violation(f'daemon-whose-connections-share-an-entry-object-does-not-start:{type(ex).__name__}', {'exc': repr(ex)[:200]}, {'family': 'shared-protect-object', 'peers': n_peers, 'v6': v6})
+        return
+    sim.case = {'family': 'shared-protect-object', 'peers': n_peers, 'v6': v6}
+    hub_addr = str(hub.addrs[0])
+    outb = sorted((sk_[3], rec['policy']['index']) for (sk_, d_), rec in hub.kernel.spd.items() if d_ == 1)
+    want = sorted(str(p_.addrs[0]) for p_ in peers)
+    ck.count('shared_entries.configurations')
+    ck.nontrivial(('shared-entries', n_peers, v6, i % 4))
+    if [x[0] for x in outb] != want:
+        ck.violation('policies-of-connections-that-share-an-entry-object-do-not-name-each-connections-own-peer', {'outbound_policy_destinations': [x[0] for x in outb], 'peers': want}, sim.case)
+        return
+    if len({x[1] for x in outb}) != len(outb):
+        ck.violation('two-outbound-policies-carry-the-same-index:shared-entry-object', {'indices': [x[1] for x in outb]}, sim.case)
+        return
+    order = list(range(n_peers))
+    if i % 4 >= 2:
+        order.reverse()
+    for k in order:
+        if (i + k) % 2:
+            sim.acquire(peers[k], 0)
+        else:
+            sim.acquire(hub, k)
+        sim.drain()
+    for k, p_ in enumerate(peers):
+        pa = str(p_.addrs[0])
+        mine = [key for key in hub.kernel.sad if key[0] in (pa, hub_addr)]
+        sas = [r_ for r_ in hub.kernel.requests if r_['msg'] and r_['msg']['name'] == 'NEWSA' and pa in (r_['msg']['sa']['saddr'], r_['msg']['sa']['id']['daddr'])]
+        ok = len(sas) == 2 and all({r_['msg']['sa']['sel']['saddr'], r_['msg']['sa']['sel']['daddr']} == {pa, hub_addr} for r_ in sas)
+        ck.count('shared_entries.negotiations')
+        if not ok:
+            ck.violation('negotiation-on-a-connection-that-shares-its-entry-object-does-not-end-with-sas-between-its-own-endpoints',
+                         {'peer': pa, 'newsa_for_that_peer': len(sas), 'selectors': [(r_['msg']['sa']['sel']['saddr'], r_['msg']['sa']['sel']['daddr']) for r_ in sas],
+                          'hub_states': [(x.state.name, str(x.peer_addr)) for x in hub.ctl.ike_sas]}, sim.case)
+            return
+    ck.count('shared_entries.all_connections_served')
+
+
 def lenient_responder(ck, i):
     """A responder that is conformant but does not narrow: it answers the offer for an entry `ip_proto: any` + port with protocol 0 / ports 0-65535 (or with
     another port). Whatever the initiator does with such an answer, no SA reaches its kernel whose selector has another port than the entry's."""
@@ -633,6 +679,9 @@ def run(ck):
     for i in range(32 if not thorough else 640):
         if ck.mine(i + 1):
             default_index_collision(ck, i)
+    for i in range(24 if not thorough else 480):
+        if ck.mine(i + 6):
+            shared_entries(ck, i)
     for i in range(30 if not thorough else 300):
         if ck.mine(i + 5):
             acquire_in_a_busy_turn(ck, i)
@@ -643,6 +692,7 @@ def run(ck):
 
 def verdict(ck):
     c = ck.counters
+    ck.floor('daemons whose connections share one protect entry object, every connection served with its own endpoints', c['shared_entries.all_connections_served'], 18)
     ck.floor('configurations whose explicit index is the value the daemon would draw for a neighbouring entry', c['default_index.configurations'] + c['default_index.configuration_refused'], 24)
     ck.floor('SAs of an entry with lifetime -1 whose kernel lifetime was checked', c['acquire.no_expiry_lifetimes_checked'], 20)
     ck.floor('configurations with entries that leave the index to the daemon', c['spd.configurations_with_entries_without_an_explicit_index'], 60)
